@@ -113,6 +113,7 @@ func runC10(w *World, r *Report) {
 	opTry, opTryPop, opReturn, opRunDefers := opc("Try"), opc("TryPop"), opc("Return"), opc("RunDefers")
 
 	c10LoopsAndTries(w, r, bp, cp, opTryPop, opc("Branch"), opc("Push"), opc("DropToMarker"))
+	c10ReturnDropsMarkers(w, r)
 
 	// ------------------------------------------------------------ R-C10-1
 	push := w.ssaFunc(bp, "Context.callFramePushWithTable")
